@@ -12,7 +12,7 @@ CHECK = {
              thorough={"checks": 60000, "shards": 16, "cap": 1800},
              no_ulimit=True,
              # MAP_POPULATE of the 16 MB initial mapping costs 2 ms of kernel time per bolt open (6 opens per case)
-             env={"BAO_RAFT_DISABLE_MAP_POPULATE": "1"},
+             env=dict({"BAO_RAFT_DISABLE_MAP_POPULATE": "1"}, **({"VERIF_KNOWN": __import__("os").environ["C09_DEV_KNOWN"]} if "C09_DEV_KNOWN" in __import__("os").environ else {})),  # DEVHOOK
              floors={"replicas": {"nontrivial": 0.20}}),
     ],
 }
